@@ -148,6 +148,7 @@ def symbol_table(ctx, py: PyRepo):
     where = py.where(ci.module, ci.node)
     ATTR = '_symbol_identifiers'
     writes = []
+    fresh_by_setdefault = []
     for mname, mi in py.modules.items():
         for node in ast.walk(mi.tree):
             tgts = []
@@ -163,7 +164,11 @@ def symbol_table(ctx, py: PyRepo):
                     writes.append((mname, enclosing(mi.tree, node), kind, node))
             if isinstance(node, ast.Call) and isinstance(node.func, ast.Attribute) and ATTR in ast.unparse(node.func.value) \
                     and node.func.attr in ('pop', 'clear', 'popitem', 'update', 'setdefault', '__delitem__'):
-                writes.append((mname, enclosing(mi.tree, node), node.func.attr, node))
+                kind = node.func.attr
+                if kind == 'setdefault' and len(node.args) == 2 and ast.unparse(node.args[1]) == f'len({ast.unparse(node.func.value)})':
+                    kind = 'item'               # table.setdefault(key, len(table)): assigns a fresh id only when the key is new
+                    fresh_by_setdefault.append(enclosing(mi.tree, node))
+                writes.append((mname, enclosing(mi.tree, node), kind, node))
     rebinds = [(m, f) for m, f, k, _n in writes if k == 'rebind']
     ctx.ob('one-symbol-table', 'created-once', rebinds == [('serializing_interpreter', '__init__')],
            f'the symbol table is (re)created in {rebinds}: it must be created in __init__ only, otherwise ids restart between the three files',
@@ -185,6 +190,7 @@ def symbol_table(ctx, py: PyRepo):
                     if isinstance(st, ast.Assign) and isinstance(st.targets[0], ast.Subscript) and ATTR in ast.unparse(st.targets[0].value) \
                             and ast.unparse(st.targets[0].slice) == key and ast.unparse(st.value) == f'len(self.{ATTR})':
                         ok = True
+    ok = ok or fresh_by_setdefault == ['symbol']
     ctx.ob('one-symbol-table', 'fresh-id-is-len', ok,
            'a new symbol must get id len(table) under a `name not in table` guard (injective and stable numbering)', py.where(ci.module, fn or ci.node))
     # ProofExp.serialize: one serializer, one execute_full over it per branch
@@ -221,6 +227,19 @@ def bounded_writes(ctx, py: PyRepo):
                             and defs[0].value.args and isinstance(defs[0].value.args[0], ast.List):
                         is_bytes, arg = True, defs[0].value
                 masked = False
+                helper = None
+                if isinstance(arg, ast.Call) and isinstance(arg.func, ast.Name) and arg.func.id != 'bytes':
+                    # a byte-rendering helper of the repository: bounded iff it is `return bytes(<its parameter>)`
+                    for hm in py.modules.values():
+                        if arg.func.id in hm.functions:
+                            helper = hm.functions[arg.func.id]
+                    if helper is not None:
+                        rets = [r for r in ast.walk(helper) if isinstance(r, ast.Return)]
+                        hp = [a.arg for a in helper.args.args]
+                        plain = len(rets) == 1 and len(hp) == 1 and ast.unparse(rets[0].value) == f'bytes({hp[0]})'
+                        is_bytes = True
+                        masked = not plain
+                        arg = arg.args[0] if arg.args else arg
                 if is_bytes:
                     for x in ast.walk(arg):
                         if isinstance(x, ast.BinOp) and isinstance(x.op, (ast.Mod, ast.BitAnd)):
